@@ -10,7 +10,8 @@
 //!              back as the same variant with equal fields and (except for streamed PSBTs)
 //!              equal bytes after re-encoding.
 //!   malformed  byte strings that are not encodings (truncated, extended, flipped, retyped)
-//!   psbt       StreamedPSBT: consistent and inconsistent PSBTs through SignWithdrawal; the view
+//!   psbt       StreamedPSBT: consistent and inconsistent PSBTs (incl. bare witness_utxo claims about
+//!              admissible and legacy outputs) through SignWithdrawal; the view
 //!              the model reads, what the decoder produced, and the reference computed here.
 //!
 //! The per-struct generators and printers are generated from the Rust source by
@@ -462,15 +463,62 @@ pub enum InKind {
     NwuBadWuScript,
     NwuBadTxid,
     NwuBadVout,
+    /// a claimed previous output without the previous transaction whose script is neither a
+    /// witness program nor p2sh: the sighash of such an input does not commit to the amount, the
+    /// decoder refuses the claim ("missing utxo")
+    WuOnlyLegacy,
 }
 const CONSISTENT: &[InKind] = &[InKind::Bare, InKind::WuOnly, InKind::Nwu, InKind::NwuWu];
 const ALL_KINDS: &[InKind] = &[
     InKind::Bare, InKind::WuOnly, InKind::Nwu, InKind::NwuWu, InKind::Nwu, InKind::NwuWu,
     InKind::NwuBadWuValue, InKind::NwuBadWuScript, InKind::NwuBadTxid, InKind::NwuBadVout,
+    InKind::WuOnlyLegacy,
 ];
 
-/// scripts around every decision of Script::witness_version
+fn script_of(head: &[u8], body: usize, tail: &[u8], g: &mut Gen) -> Vec<u8> {
+    let mut v = head.to_vec();
+    v.extend(g.fill(body, false, false));
+    v.extend_from_slice(tail);
+    v
+}
+/// outputs whose spend commits to the amount: witness programs (shortest, longest, v0, v1, v16)
+/// and p2sh = OP_HASH160 <20 bytes> OP_EQUAL, exactly 23 bytes
+pub fn admissible_script(g: &mut Gen) -> Vec<u8> {
+    match g.rng.below(8) {
+        0 => script_of(&[0x00, 0x14], 20, &[], g),
+        1 => script_of(&[0x00, 0x20], 32, &[], g),
+        2 => script_of(&[0x51, 0x20], 32, &[], g),
+        3 => script_of(&[0x60, 0x28], 40, &[], g),
+        4 => script_of(&[0x00, 0x02], 2, &[], g),
+        _ => script_of(&[0xa9, 0x14], 20, &[0x87], g),
+    }
+}
+/// everything else, with the near misses of p2sh (22 / 24 bytes, each of the three fixed bytes
+/// wrong) and of a witness program (3 / 43 bytes, a non-version first opcode)
+pub fn legacy_script(g: &mut Gen) -> Vec<u8> {
+    match g.rng.below(14) {
+        0 => script_of(&[0x76, 0xa9, 0x14], 20, &[0x88, 0xac], g), // p2pkh
+        1 => script_of(&[0xa9, 0x14], 19, &[0x87], g),             // 22 bytes
+        2 => script_of(&[0xa9, 0x14], 21, &[0x87], g),             // 24 bytes
+        3 => script_of(&[0xa9, 0x14], 20, &[0x87, 0x00], g),       // p2sh + one byte
+        4 => script_of(&[0xaa, 0x14], 20, &[0x87], g),             // OP_HASH256
+        5 => script_of(&[0xa8, 0x14], 20, &[0x87], g),             // OP_SHA256
+        6 => script_of(&[0xa9, 0x13], 20, &[0x87], g),             // push 19 announced
+        7 => script_of(&[0xa9, 0x15], 20, &[0x87], g),             // push 21 announced
+        8 => script_of(&[0xa9, 0x14], 20, &[0x88], g),             // OP_EQUALVERIFY
+        9 => script_of(&[0xa9, 0x14], 20, &[0x86], g),
+        10 => script_of(&[0x00, 0x01], 1, &[], g),                 // 3 bytes: too short for a program
+        11 => script_of(&[0x60, 0x29], 41, &[], g),                // 43 bytes: too long
+        12 => script_of(&[0x50, 0x14], 20, &[], g),                // OP_RESERVED is not a version
+        _ => vec![],
+    }
+}
+
+/// scripts around every decision of Script::witness_version and Script::is_p2sh
 pub fn script_pool(g: &mut Gen) -> Vec<u8> {
+    if g.rng.chance(1, 3) {
+        return if g.rng.chance(1, 3) { admissible_script(g) } else { legacy_script(g) };
+    }
     let r = g.rng.below(22);
     let body = |g: &mut Gen, n: usize| g.fill(n, false, false);
     let mk = |ver: u8, push: u8, n: usize, g: &mut Gen| {
@@ -538,7 +586,14 @@ pub fn arb_psbt(g: &mut Gen, kinds: &[InKind]) -> (Psbt, Vec<InKind>) {
         let mut inp = Input::default();
         match kind {
             InKind::Bare => {}
-            InKind::WuOnly => inp.witness_utxo = Some(out.clone()),
+            // a bare claim: admissible / not admissible BY CONSTRUCTION of the script bytes (the
+            // expectation does not consult the implementation's own predicates)
+            InKind::WuOnly => {
+                inp.witness_utxo = Some(TxOut { value: out.value, script_pubkey: ScriptBuf::from_bytes(admissible_script(g)) })
+            }
+            InKind::WuOnlyLegacy => {
+                inp.witness_utxo = Some(TxOut { value: out.value, script_pubkey: ScriptBuf::from_bytes(legacy_script(g)) })
+            }
             _ => {
                 txin.previous_output = OutPoint { txid: prev.compute_txid(), vout };
                 match kind {
@@ -1084,18 +1139,24 @@ fn psbt_domain(args: &Args) {
     // Script::is_witness_program against the model's, on scripts around every decision
     let mut g = Gen::new(args.seed ^ 0x7770, Profile::Rand, None);
     let mut wp_true = 0u64;
+    let mut sh_true = 0u64;
     let nwp = args.n * 4;
     for _ in 0..nwp {
         let s = script_pool(&mut g);
         let b = ScriptBuf::from_bytes(s.clone()).is_witness_program();
+        let h = ScriptBuf::from_bytes(s.clone()).is_p2sh();
         if b {
             wp_true += 1;
         }
-        emit("WP", json!({"script": hex::encode(&s), "is_witness_program": b, "coq": format!("({}, {})", coq_bytes(&s), coq_bool(b))}));
+        if h {
+            sh_true += 1;
+        }
+        emit("WP", json!({"script": hex::encode(&s), "is_witness_program": b, "is_p2sh": h,
+                          "coq": format!("({}, {}, {})", coq_bytes(&s), coq_bool(b), coq_bool(h))}));
     }
     emit("STATS", json!({"domain": "wire-psbt", "evaluations": args.n, "accepted": n_ok, "refused": n_err,
                          "input_kinds": kinds, "segwit_flags_true": flags_true, "monitor_violations": monitor,
-                         "witness_program_cases": nwp, "witness_program_true": wp_true}));
+                         "witness_program_cases": nwp, "witness_program_true": wp_true, "p2sh_true": sh_true}));
 }
 
 fn main() {
